@@ -715,14 +715,11 @@ def childReports (path : Path) (gen : Nat) : Nat → List Child → List Report
   | _, [] => []
   | i, c :: rest => (if c.uncollectable then Report.fail else Report.succ path c.name (gen, i)) :: childReports path gen (i + 1) rest
 
-/-- Read from b-c18's translator fact `Generated.Prv.genSteps` (statements of the generator branch of
-`provisional.pytask_execute_task`): a statement sits between collecting the children and `session.tasks.extend` —
-the loop that raises the first failed report's exception (fix f1fcb9a, F35; the translator accepts nothing else there). -/
-def genRaisesOnFailedChild : Bool :=
-  match Generated.Prv.genSteps.dropWhile (fun s => s != Generated.Prv.GStep.collectEach) with
-  | _ :: Generated.Prv.GStep.extendTasks :: _ => false
-  | _ :: _ :: _ => true
-  | _ => false
+/-- Read from the translator fact `Generated.Prv.genSteps` (statements of the generator branch of
+`provisional.pytask_execute_task`, extracted by `extract_provgen.py`): the loop that raises the first failed child
+report's exception (fix f1fcb9a, F35) is present — the translator only accepts it between collecting the children and
+`session.tasks.extend`. -/
+def genRaisesOnFailedChild : Bool := Generated.Prv.genSteps.contains Generated.Prv.GStep.raiseOnCollectFail
 
 /-- the part of the generator branch after the children were collected: `none` = the generator fails (its task is
 reported FAIL, the build does not end with exit code 0); otherwise the successfully collected children join
